@@ -829,3 +829,81 @@ mod tests {
         );
     }
 }
+
+#[cfg(feature = "verif")]
+impl Segments {
+    /// Verification hook: canonical dump (byte offsets relative to `removed_offset`, send times as ages).
+    pub fn verif_fp(&self, now: Instant, out: &mut Vec<u64>) {
+        let Segments {
+            segments,
+            len_bytes,
+            offset,
+            removed_offset,
+            sack_depth,
+            last_sack_empty,
+            snd_una,
+        } = self;
+        out.push(segments.len() as u64);
+        out.push(*len_bytes as u64);
+        out.push(offset.wrapping_sub(*removed_offset));
+        out.push(*sack_depth as u64);
+        out.push(*last_sack_empty as u64);
+        out.push(snd_una.0 as u64);
+        for s in segments.iter() {
+            let Segment {
+                payload_size,
+                payload_offset_absolute,
+                is_delivered,
+                sent,
+                is_mtu_probe,
+                is_lost,
+                is_expired,
+                has_sacks_after_it,
+            } = s;
+            out.push(*payload_size as u64);
+            out.push(payload_offset_absolute.wrapping_sub(*removed_offset));
+            out.push(
+                (*is_delivered as u64)
+                    | (*is_mtu_probe as u64) << 1
+                    | (*is_lost as u64) << 2
+                    | (*is_expired as u64) << 3
+                    | (*has_sacks_after_it as u64) << 4,
+            );
+            match *sent {
+                SentStatus::NotSent => out.push(u64::MAX / 5),
+                SentStatus::SentTime(t) => {
+                    out.push(1);
+                    out.push(crate::verif::rel_instant(now, t));
+                }
+                SentStatus::Retransmitted {
+                    count,
+                    last_send_ts,
+                } => {
+                    out.push(2 + count as u64);
+                    out.push(crate::verif::rel_instant(now, last_send_ts));
+                }
+            }
+        }
+    }
+
+    /// Verification hook: (payload size, offset relative to the ring front, delivered, probe, send count) per segment.
+    pub fn verif_segments(&self) -> Vec<(usize, i64, bool, bool, usize)> {
+        self.segments
+            .iter()
+            .map(|s| {
+                (
+                    s.payload_size,
+                    s.payload_offset_absolute as i64 - self.removed_offset as i64,
+                    s.is_delivered,
+                    s.is_mtu_probe,
+                    s.send_count(),
+                )
+            })
+            .collect()
+    }
+
+    /// Verification hook: SND.UNA.
+    pub fn verif_snd_una(&self) -> SeqNr {
+        self.snd_una
+    }
+}
